@@ -735,6 +735,13 @@ func c16ScopeLabel(h *c16Hist, failed int) string {
 		if len(c16OneRender(h.Items)) == len(h.Items) {
 			return h.Shape + ":single-render"
 		}
+	case "callee-locals-in-fresh-scope":
+		for _, it := range h.Items {
+			if it.T == "def" && it.Gen && c16HasLocals(it.F.Body) {
+				return h.Shape
+			}
+		}
+		return h.Shape + ":no-locals"
 	}
 	return h.Shape
 }
@@ -746,6 +753,8 @@ func c16ScopeSimpler(h *c16Hist) []*c16Hist {
 		return []*c16Hist{{Shape: h.Shape, Plain: true, Exec: h.Exec, Items: c16NoProbes(h.Items)}}
 	case "function-called-from-later-render":
 		return []*c16Hist{{Shape: h.Shape, Plain: true, Exec: h.Exec, Items: c16OneRender(h.Items)}}
+	case "callee-locals-in-fresh-scope":
+		return []*c16Hist{{Shape: h.Shape, Plain: true, Exec: h.Exec, Items: c16NoLocals(h.Items)}}
 	}
 	return nil
 }
